@@ -1,5 +1,5 @@
 (* Property C14 -- statements only; every proof is `exact <lemma from Proofs/>`. *)
-From Erbium Require Import Lib.Base Model.DnsName Model.DnsCodec Proofs.DnsName Proofs.DnsRecord Proofs.DnsPacket.
+From Erbium Require Import Lib.Base Model.DnsName Model.DnsCodec Proofs.DnsName Proofs.DnsRecord Proofs.DnsPacket Proofs.DnsWf Proofs.DnsRoundtrip.
 
 (* Names, with the dictionary (suffix tree) invariant [tree_ok]: writing a
    well-formed name at the end of a buffer whose dictionary is valid never
@@ -68,37 +68,35 @@ Check C14_decoder_complete : forall buf off h ls nxt,
   get_domain buf off = Ok (ls, nxt).
 Print Assumptions C14_decoder_complete.
 
-(* Names returned by the decoder are names the encoder accepts: labels of
-   1..63 octets, at most 255 octets in all (hence at most 127 labels).
-   This is the names part of C14_decoded_is_wf; the full statement
-     forall b m, decode b = Ok m -> wf_pkt m
-   is not yet proved (it needs the same for every RDATA kind and the OPT folding). *)
-Theorem C14_decoded_is_wf_partial : forall buf off n nxt,
+(* Everything the decoder returns is well-formed, i.e. in the domain on which the
+   encoder is specified and C14_roundtrip holds: names of 1..63-octet labels and
+   at most 255 octets, field widths, record data kind matching the type, no OPT
+   left in the additional section, EDNS fields consistent (version 0; without
+   OPT: rcode < 16, size 512, DO clear), counts below 65536.  ([bytes_ok b]: the
+   elements of b are octets.) *)
+Theorem C14_decoded_is_wf : forall b m, bytes_ok b = true -> decode b = Ok m -> wf_pkt m = true.
+Proof. exact decode_wf. Qed.
+Check C14_decoded_is_wf : forall b m, bytes_ok b = true -> decode b = Ok m -> wf_pkt m = true.
+Print Assumptions C14_decoded_is_wf.
+
+(* The first half of the property text: any message the decoder accepts is
+   re-encoded (when the re-encoding drops nothing, i.e. fits the limit) into
+   octets that decode to the identical message.  With the decoder's former
+   limits (10 hops, no bound on name length) this is false: F18, F45. *)
+Theorem C14_decode_encode_decode : forall b m size e,
+  bytes_ok b = true -> decode b = Ok m -> encode_sized_t m size = Ok (e, false) -> decode e = Ok m.
+Proof. exact decode_encode_decode. Qed.
+Check C14_decode_encode_decode : forall b m size e,
+  bytes_ok b = true -> decode b = Ok m -> encode_sized_t m size = Ok (e, false) -> decode e = Ok m.
+Print Assumptions C14_decode_encode_decode.
+
+(* names level of the same two statements (kept: they are what the packet level rests on) *)
+Theorem C14_decoded_name_is_wf : forall buf off n nxt,
   bytes_ok buf = true -> get_domain buf off = Ok (n, nxt) -> wf_name n = true.
 Proof. exact get_domain_wf. Qed.
-Check C14_decoded_is_wf_partial : forall buf off n nxt,
+Check C14_decoded_name_is_wf : forall buf off n nxt,
   bytes_ok buf = true -> get_domain buf off = Ok (n, nxt) -> wf_name n = true.
-Print Assumptions C14_decoded_is_wf_partial.
-
-(* decode . encode . decode = decode on names: a name the decoder returned from
-   any octets whatsoever is written by the encoder -- anywhere later, against
-   any valid dictionary -- such that the decoder returns it again.  (With the
-   decoder's former limits, 10 hops and no length bound, this is false: F18, F45.)
-   The packet-level statement is C14_roundtrip below. *)
-Theorem C14_roundtrip_partial : forall b off n nxt buf kids,
-  bytes_ok b = true -> get_domain b off = Ok (n, nxt) ->
-  0 < lenN buf -> Forall (tree_ok buf []) kids ->
-  exists e kids', push_name (lenN buf) kids n = Ok (e, kids') /\
-    Forall (tree_ok (buf ++ e) []) kids' /\
-    get_domain (buf ++ e) (lenN buf) = Ok (n, lenN buf + lenN e).
-Proof. exact decoded_name_reencodes. Qed.
-Check C14_roundtrip_partial : forall b off n nxt buf kids,
-  bytes_ok b = true -> get_domain b off = Ok (n, nxt) ->
-  0 < lenN buf -> Forall (tree_ok buf []) kids ->
-  exists e kids', push_name (lenN buf) kids n = Ok (e, kids') /\
-    Forall (tree_ok (buf ++ e) []) kids' /\
-    get_domain (buf ++ e) (lenN buf) = Ok (n, lenN buf + lenN e).
-Print Assumptions C14_roundtrip_partial.
+Print Assumptions C14_decoded_name_is_wf.
 
 (* Record level, byte exact, all eleven kinds of record data: owner name and
    every name inside the data are compressed against the dictionary (data names
